@@ -87,10 +87,61 @@ let rec parse_prog parent toks =
     (Prog (v, ff_of sched, codes_of sched, ns), rest)
   | _ -> failwith "visit line"
 
+(* "@e PATH:OP & …": what the callback does, during the first call on the container at PATH, to that
+   container (see harness/drv_visit.c).  json_visit.c looks at a container only after the first call
+   on it, so the traversal is the traversal of the tree with the edits carried out: [settle]. *)
+let edits_of sched =
+  match List.filter (fun o -> String.length o > 0 && o.[0] = 'e') (List.tl (String.split_on_char '@' sched)) with
+  | [] -> []
+  | o :: _ ->
+    List.filter_map (fun item ->
+        match String.index_opt item ':' with
+        | None -> None
+        | Some i ->
+          let path = String.sub item 0 i and op = String.sub item (i + 1) (String.length item - i - 1) in
+          let comps = List.map int_of_string (List.filter (fun x -> x <> "") (String.split_on_char '/' path)) in
+          Some (comps, op))
+      (String.split_on_char '&' (String.sub o 1 (String.length o - 1)))
+
+let key_and_value body =
+  (* "<hexkey|->[=<jv>]" *)
+  let i = try String.index body '=' with Not_found -> String.length body in
+  let k = bytes_of_hex (String.sub body 0 i) in
+  let v = if i < String.length body then Some (Jvtext.jv_of_string (String.sub body (i + 1) (String.length body - i - 1))) else None in
+  (k, v)
+
+let apply_op (v : jv) (op : string) : jv =
+  let body = String.sub op 1 (String.length op - 1) in
+  match v, op.[0] with
+  | JArr l, 'd' -> let n = List.length l in let k = min (int_of_string body) n in JArr (List.filteri (fun i _ -> i < n - k) l)
+  | JArr _, 'D' -> JArr []
+  | JArr l, 'a' -> JArr (l @ [Jvtext.jv_of_string body])
+  | JArr l, 'r' ->
+    let i = String.index body '=' in
+    let idx = int_of_string (String.sub body 0 i) in
+    let nv = Jvtext.jv_of_string (String.sub body (i + 1) (String.length body - i - 1)) in
+    if idx < List.length l then JArr (List.mapi (fun j x -> if j = idx then nv else x) l) else v
+  | JObj l, 'A' ->
+    (match key_and_value body with
+     | (k, Some nv) ->
+       if List.exists (fun (k', _) -> k' = k) l then JObj (List.map (fun (k', x) -> if k' = k then (k', nv) else (k', x)) l)
+       else JObj (l @ [(k, nv)])
+     | _ -> v)
+  | JObj l, 'X' -> let (k, _) = key_and_value body in JObj (List.filter (fun (k', _) -> k' <> k) l)
+  | _ -> v
+
+let rec settle edits path (v : jv) : jv =
+  let v = List.fold_left (fun v (p, op) -> if p = path then apply_op v op else v) v edits in
+  match v with
+  | JArr l -> JArr (List.mapi (fun i c -> settle edits (path @ [i]) c) l)
+  | JObj l -> JObj (List.mapi (fun i (k, c) -> (k, settle edits (path @ [i]) c)) l)
+  | _ -> v
+
 let run line =
   match split_on ' ' line with
   | [tree; sched] ->
     let v = Jvtext.jv_of_string tree in
+    let v = match edits_of sched with [] -> v | es -> settle es [] v in
     let userfunc = sched_callback (Array.of_list (codes_of sched)) in
     let model = show (json_c_visit_ff userfunc v (ff_of sched)) in
     (* the extracted reference traversal is run alongside as a cross-check of the glue (the
